@@ -1,11 +1,14 @@
 #!/bin/bash
 # runs every registered quick (or $1) command on the current tree; prints a one-line summary each
-cd /verif
+V="${VERIF_DIR:-$(cd "$(dirname "$0")/.." && pwd)}"
+cd "$V"
 tier=${1:-quick}
+tmo=${2:-3600}
 for id in $(python3 -c "import json;print(' '.join(c['property_id'] for c in json.load(open('MANIFEST.json'))['checks']))"); do
   s=$(date +%s)
-  out=$(./check $id $tier 2>&1)
+  out=$(timeout $tmo ./check $id $tier 2>&1)
   rc=$?
   e=$(date +%s)
   echo "$id rc=$rc $((e-s))s :: $(echo "$out" | grep '^check' | tail -1) :: $(echo "$out" | grep -c '^INCONCLUSIVE') incon"
+  echo "$out" | grep '^INCONCLUSIVE\|^VIOLATION' | head -5 | cut -c1-300
 done
